@@ -82,6 +82,16 @@ impl Builder {
     /// Sets the compression method of the reader.
     ///
     /// By default, the compression method will be automatically detected.
+    /// Verification hook: builds a reader from a caller-supplied `BufRead`, going through the
+    /// same detection and construction path as [`Builder::build`].
+    #[cfg(feature = "verif")]
+    pub fn verif_build_from_reader<R>(self, reader: R) -> io::Result<super::DynReader>
+    where
+        R: 'static + io::BufRead,
+    {
+        self.build_from_reader(reader)
+    }
+
     pub fn set_compression_method(mut self, compression_method: Option<CompressionMethod>) -> Self {
         self.compression_method = Some(compression_method);
         self
